@@ -312,6 +312,9 @@ func check(h hist, steps []step) ([]viol, stats) {
 			if s.res.Rec.Called && s.res.Output != chainh.OutText(s.res.Rec.Out) {
 				add("C02:failed-call-output", "txn %d: output %q is not the contract's error %q", i, s.res.Output, chainh.OutText(s.res.Rec.Out))
 			}
+			if pre[t.From].Nonce != math.MaxInt64 && post[t.From].Nonce != pre[t.From].Nonce+1 {
+				add("C02:failed-call-nonce", "txn %d failed in the contract and was applied: sender nonce %d -> %d (must go up by one)", i, pre[t.From].Nonce, post[t.From].Nonce)
+			}
 			if !sameNodes(s.pre, s.post) {
 				add("C02:failed-call-left-writes", "txn %d failed in the contract but contract nodes changed", i)
 			}
@@ -601,8 +604,8 @@ func coqCase(h hist, steps []step) string {
 			vh.Z(int64(t.To)), vh.ZU(t.Value), vh.ZU(t.Fee), vh.Z(t.Nonce), coqResult(t, s.res.Rec))
 		obs[i] = fmt.Sprintf("(%s, %s, %s)", coqObs(t, s.res), coqChanged(s.pre, s.post), coqNodes(s.post))
 	}
-	return fmt.Sprintf("CaseHist {| csc_cfg := {| cfg_fee := %s; cfg_events := %s; cfg_miner := 0 |}; csc_init := %s;\n     csc_items := %s;\n     csc_obs := %s |}",
-		vh.Bool(h.Fee), vh.Bool(h.Events), coqState(init), vh.List(items), vh.List(obs))
+	return fmt.Sprintf("CaseHist {| csc_cfg := {| cfg_fee := %s; cfg_events := %s; cfg_miner := 0; cfg_strict_ids := %s |}; csc_init := %s;\n     csc_items := %s;\n     csc_obs := %s |}",
+		vh.Bool(h.Fee), vh.Bool(h.Events), vh.Bool(chainh.StrictIDs()), coqState(init), vh.List(items), vh.List(obs))
 }
 
 // ---------- generator ----------
@@ -1310,6 +1313,8 @@ func main() {
 		}
 		rep.Note("miner.validateTransaction: %d (state nonce | no leaf) x txn nonce combinations from an int64 boundary set run on the real code and compared with cs_classify", n)
 	}
+	// an empty trie: updateState refuses every transaction (root node not found)
+	handle(hist{Fee: true, Txns: []chainh.Txn{{Type: 10, From: 3, To: 4, Nonce: 1, Round: 1}, {Type: 0, From: 3, To: 4, Value: 1, Nonce: 1, Round: 1}}}, true)
 	if prop == "C03" || prop == "C02" {
 		hs := exhaustiveNonces()
 		for i, h := range hs {
